@@ -77,6 +77,31 @@ Rp(v, req, idx, root, pf, sh) ==
 NackRp(req) == Rp("nack", req, 0, "-", NoPf, NoSh)
 
 ---------------------------------------------------------------------------
+(* The slot's DISSEMINATION spot.  Besides the per-hash repaired spots the *)
+(* block store keeps, per slot, whatever arrived through Rotor, with its   *)
+(* own commitment cache (Blockstore::cached_commitment).  Repair exists    *)
+(* for the case that this is NOT the block being repaired (an equivocating *)
+(* leader: the node saw a shred of O, block B got notarized), so nothing   *)
+(* the requester does may depend on it: a repaired shred is validated with *)
+(* the full signature check (no cached commitment) and filed under the     *)
+(* requested hash only.                                                    *)
+(*   dissem = "empty" : nothing arrived through dissemination              *)
+(*            "other" : one shred of every slice of block O (same slot,    *)
+(*                      same leader key, other content)                    *)
+(*            "same"  : one shred of every slice of block B itself         *)
+DissemKinds == {"empty", "other", "same"}
+DissemCache(dissem, i) ==
+  CASE dissem = "other" -> <<i = NS - 1, BlockOf("O")[i + 1]>>
+    [] dissem = "same" -> <<i = NS - 1, BlockOf("B")[i + 1]>>
+    [] OTHER -> <<>>
+\* what ValidatedShred::try_new would answer if it WERE handed the dissemination cache
+\* (not used by Handle: documents why it must not be)
+WithDissemCache(sh, cache) ==
+  IF cache = <<>> THEN SigOK(sh)
+  ELSE IF cache = <<sh.last, ShRoot(sh)>> THEN TRUE            \* signature not even looked at
+  ELSE FALSE                                                   \* "equivocation": correct shreds of B refused
+
+---------------------------------------------------------------------------
 (* The repaired spot of the block store for hash(B): BlockData::add_shred  *)
 NoCm == <<>>
 EmptyStore ==
